@@ -103,7 +103,7 @@ class Ctx:
                               "violated": sorted({v.name for v in res.violations})})
 
     def design(self, module: str, cfg: str | None = None, *, expect_ok: bool = True,
-               coverage_actions: Iterable[str] = (), workers: int | str = "auto",
+               coverage_actions: Iterable[str] = (), workers: int | str = 6,
                timeout: int = 900, env: dict[str, str] | None = None, deadlock: bool = False,
                simulate: str | None = None, depth: int | None = None) -> TlcResult:
         """Exhaustive (or simulated) TLC run of a design model; must hold unless expect_ok=False."""
@@ -123,7 +123,7 @@ class Ctx:
         return res
 
     def behaviours(self, module: str, cfg: str | None = None, *, tag: str = "HIST",
-                   workers: int | str = "auto", timeout: int = 900,
+                   workers: int | str = 6, timeout: int = 900,
                    env: dict[str, str] | None = None, simulate: str | None = None,
                    depth: int | None = None, seed: int | None = None) -> list[Any]:
         """Run an MC_ wrapper whose Emit invariant PrintT's <<tag, ToJson(x)>>; return the x's."""
